@@ -27,6 +27,7 @@ import (
 	"go.opentelemetry.io/collector/connector"
 	"go.opentelemetry.io/collector/connector/xconnector"
 	"go.opentelemetry.io/collector/consumer"
+	"go.opentelemetry.io/collector/consumer/consumererror"
 	"go.opentelemetry.io/collector/consumer/xconsumer"
 	"go.opentelemetry.io/collector/internal/fanoutconsumer"
 	"go.opentelemetry.io/collector/pdata/plog"
@@ -99,9 +100,27 @@ func (st *runState[T, C]) onConsume(c int, d T) error {
 	}
 	st.returned[c] = true
 	if st.sc.Fail[c-1] {
-		return failErr(c)
+		return shaped(failErr(c), st.sc.ID+c)
 	}
 	return nil
+}
+
+// shaped: "every consumer is invoked even if an earlier one failed" whatever KIND of error the failure is.  The scripted
+// failure is handed back bare, as a permanent error, or wrapping / joined with a context error of the consumer's own (its
+// export timed out, its worker was stopped) -- the caller's context is alive in every scenario (seeded change C06-6 stopped
+// the fan-out when a consumer's error looked like an expired request).  errors.Is(err, failErr(c)) holds for every shape.
+func shaped(err error, k int) error {
+	switch k % 5 {
+	case 1:
+		return fmt.Errorf("%w: %w", err, context.DeadlineExceeded)
+	case 2:
+		return errors.Join(context.Canceled, err)
+	case 3:
+		return consumererror.NewPermanent(err)
+	case 4:
+		return fmt.Errorf("export failed: %w", fmt.Errorf("%w (%w)", err, context.DeadlineExceeded))
+	}
+	return err
 }
 
 type consumerError struct{ c int }
